@@ -46,7 +46,7 @@ func viewTypes() []*dg.UserType {
 // crash / an accepted dangling reference is a fresh VIOLATION with this replay.
 var repaired = map[string]bool{
 	"generate-panic:codegen/cli.jsonExample:index":             true,
-	"generate-panic:expr.(*Array).MakeSlice:reflect":           true,
+	"generate-panic:expr.(*Array).MakeSlice:reflect-not-assignable":           true,
 	"dangling-tag-accepted":                                   true,
 	"dangling-required-under-map-accepted":                    true,
 	"panic:expr.(*HTTPResponseExpr).Validate.func1:nil-deref": true,
@@ -135,7 +135,7 @@ func witnessItems() []*Item {
 		el := dg.A(dg.Prim("UInt32"))
 		el.V = &dg.Validation{Enum: []any{1, 2, 3}}
 		pl2 := dg.A(dg.Obj(dg.F("xs", dg.ArrayOf(el))))
-		addD("generate-panic:expr.(*Array).MakeSlice:reflect", &dg.Design{Name: "wenum", Services: svc1(&dg.Method{Name: "m", Payload: &pl2, HTTP: post("/u")})},
+		addD("generate-panic:expr.(*Array).MakeSlice:reflect-not-assignable", &dg.Design{Name: "wenum", Services: svc1(&dg.Method{Name: "m", Payload: &pl2, HTTP: post("/u")})},
 			&Mutation{Kind: "int_enum_on_sized_int_array", Expect: "any"}, true)
 	}
 	// accepted with an empty / repeated / contradictory declaration, then a crash later
@@ -166,6 +166,25 @@ func witnessItems() []*Item {
 		pl3 := dg.A(dg.Ref("O"))
 		addD("generate-panic:expr.byLength:explicit", &dg.Design{Name: "wdupattr", Types: []*dg.UserType{o2}, Services: svc1(&dg.Method{Name: "m", Payload: &pl3, HTTP: post("/da")})},
 			&Mutation{Kind: "dup_attr", Where: "O", Name: "x", Expect: "any"}, true)
+	}
+	// accepted, then the generators crash (met by the final thorough sweep once Extend cycles
+	// stopped killing the process; neither needs a cycle)
+	{
+		// a recursive type whose array of itself has a minimum length: the example of the nested
+		// element is nil at the recursion limit and MakeSlice appends an invalid reflect.Value
+		ak := dg.F("kids", dg.ArrayOf(dg.A(dg.Ref("A")))).With(dg.Validation{MinLen: dg.Ip(1)})
+		a := &dg.UserType{Name: "A", Base: dg.Obj(dg.F("s", dg.Prim("String")), ak)}
+		pl := dg.A(dg.Ref("A"))
+		addD("generate-panic:expr.(*Array).MakeSlice:reflect-zero-value", &dg.Design{Name: "wrecminlen", Types: []*dg.UserType{a}, Services: svc1(&dg.Method{Name: "m", Payload: &pl, HTTP: post("/rm")})},
+			&Mutation{Kind: "recursive_array_min_length", Where: "A.kids", Expect: "any"}, true)
+		// gRPC result whose element type inherits an Any attribute through Extend: gRPC validation
+		// (hasAnyType) runs before Finalize merges the base, the proto generator then meets Any
+		b := &dg.UserType{Name: "B", Base: dg.Obj(dg.F("x", dg.Prim("Any")))}
+		t := &dg.UserType{Name: "T", Base: dg.Obj(dg.F("a", dg.Prim("String"))), Extend: "B"}
+		pls := dg.A(dg.Prim("String"))
+		res := dg.A(dg.ArrayOf(dg.A(dg.Ref("T"))))
+		addD("generate-panic:grpc/codegen.protoNativeType:explicit", &dg.Design{Name: "wgrpcany", Types: []*dg.UserType{b, t}, Services: svc1(&dg.Method{Name: "m", Payload: &pls, Result: &res, HTTP: post("/ga"), GRPC: &dg.GRPCMap{}})},
+			&Mutation{Kind: "grpc_any_in_extended_base", Where: "T extends B", Expect: "any"}, true)
 	}
 	// DSL functions that crash instead of reporting
 	addP("panic:dsl.Server:nil-deref", C("Server", S("x")))
